@@ -147,7 +147,7 @@ theorem commentLoop_eq : ∀ (fuel : Nat) (s : St), s.rest.length ≤ fuel → V
       have hcc := commentCond_cons hw hc
       by_cases hlt : Spec.isLineTerminatorChar c = true
       · rw [loop_false (by rw [hcc, hlt]; rfl)]
-        simp [List.takeWhile_cons, hlt]
+        simp [hlt]
       · have hlt' : Spec.isLineTerminatorChar c = false := by simpa using hlt
         rw [loop_true (by rw [hcc, hlt']; rfl)]
         simp only [List.takeWhile_cons, hlt', Bool.not_false, if_true, List.all_cons, List.length_cons]
